@@ -501,7 +501,104 @@ func c09CapturedNode(c *Ctx, p *core.Prog) {
 			}
 		}
 	}
-	r.OK("captured-node", "scan", "-", sprintf("%d node-typed captures of escaping function literals examined", n))
+	// through a constructor: G(x) returns a literal that captures its parameter x (AddColumn, AddWhere: the caller owns
+	// x and decides how often the rule is applied); a function of this module that passes G a node it has just made
+	// itself returns a rule carrying one node for all its runs (AddSelectStar)
+	capturing := map[*ssa.Function]map[int]bool{}
+	for _, fn := range p.ModuleFuncs() {
+		if fn.Parent() != nil || !core.InPkgs(fn, "pkg/transform", "pkg/gosqlx", "pkg/sql/ast", "pkg/formatter", "pkg/linter", "pkg/sql/security") {
+			continue
+		}
+		for _, b := range fn.Blocks {
+			for _, in := range b.Instrs {
+				mc, ok := in.(*ssa.MakeClosure)
+				if !ok {
+					continue
+				}
+				escapes := false
+				for _, ref := range core.Referrers(mc) {
+					switch x := ref.(type) {
+					case *ssa.DebugRef:
+					case *ssa.Call:
+						if x.Call.Value != ssa.Value(mc) {
+							escapes = true
+						}
+					default:
+						escapes = true
+					}
+				}
+				if !escapes {
+					continue
+				}
+				for _, bnd := range mc.Bindings {
+					for i, par := range fn.Params {
+						if !isNodeType(par.Type()) {
+							continue
+						}
+						direct := bnd == ssa.Value(par)
+						if cell, ok := bnd.(*ssa.Alloc); ok && !direct {
+							for _, ref := range core.Referrers(cell) {
+								if st, ok := ref.(*ssa.Store); ok && st.Addr == ssa.Value(cell) && st.Val == ssa.Value(par) {
+									direct = true
+								}
+							}
+						}
+						if direct {
+							if capturing[fn] == nil {
+								capturing[fn] = map[int]bool{}
+							}
+							capturing[fn][i] = true
+						}
+					}
+				}
+			}
+		}
+	}
+	nc := 0
+	for _, fn := range p.ModuleFuncs() {
+		if !core.InPkgs(fn, "pkg/transform", "pkg/gosqlx", "pkg/sql/ast", "pkg/formatter", "pkg/linter", "pkg/sql/security") {
+			continue
+		}
+		seq := 0
+		for _, b := range fn.Blocks {
+			for _, in := range b.Instrs {
+				call, ok := in.(*ssa.Call)
+				if !ok {
+					continue
+				}
+				g := call.Call.StaticCallee()
+				if g == nil || capturing[g] == nil {
+					continue
+				}
+				for i, a := range call.Call.Args {
+					if !capturing[g][i] {
+						continue
+					}
+					nc++
+					v := a
+					if mi, ok := v.(*ssa.MakeInterface); ok {
+						v = mi.X
+					}
+					made := ""
+					if al, ok := v.(*ssa.Alloc); ok && al.Heap && al.Parent() == fn {
+						made = "a node built here (" + core.Deref(al.Type()).String() + ")"
+					} else if oc := fromCall(a, 0); oc != nil {
+						made = "a node obtained here from " + oc.Call.StaticCallee().Name() + "()"
+					}
+					if made == "" {
+						continue
+					}
+					// fine when the call itself sits inside a literal that runs once per application
+					if fn.Parent() != nil {
+						continue
+					}
+					seq++
+					r.Violate("captured-node", core.FnName(fn)+sprintf("|via-%s#%d", g.Name(), seq), p.Pos(call.Pos()), "passes "+made+" to "+g.Name()+", whose returned function keeps its argument: the rule built by "+fn.Name()+" carries that one node into every tree it is applied to (releasing one of them blanks it in the others)")
+				}
+			}
+		}
+	}
+	r.OK("captured-node", "scan", "-", sprintf("%d node-typed captures of escaping function literals and %d calls of capturing constructors examined", n, nc))
 }
 
 // memoised-node: sync.OnceValue / OnceValues hand the same value to every caller. An AST node is mutable, is
